@@ -9,11 +9,13 @@ import (
 	"hash/fnv"
 	"os"
 	"path/filepath"
+	"runtime"
 	"sort"
 	"strings"
 	"sync"
 	"testing"
 	"testing/synctest"
+	"time"
 
 	"pgregory.net/rapid"
 )
@@ -352,6 +354,9 @@ func Run[S any](t *testing.T, prop, sub string, gen func(*rapid.T) S, run func(S
 		}
 		if err := exec(sc, scJSON); err != nil {
 			p := writeFail(prop, sub, scJSON, err)
+			if _, ok := err.(*Violation); !ok {
+				rt.Fatalf("VERIF-HARNESS-ERROR property=%s sub=%s file=%s: %v", prop, sub, p, err)
+			}
 			rt.Fatalf("VERIF-VIOLATION property=%s sub=%s file=%s sig=%s: %v", prop, sub, p, sigOf(err), err)
 		}
 	})
@@ -416,6 +421,9 @@ func Scale(q, th int) int {
 	return q
 }
 
+// BubbleLinger is the virtual time the root goroutine lingers after the scenario so that sleeping goroutines can exit.
+var BubbleLinger = 10 * time.Minute
+
 // Bubble runs f inside a synctest bubble and converts a bubble failure (deadlock: goroutines left
 // blocked for ever when the root returns, or a panic in the root goroutine) into an error.
 func Bubble(t *testing.T, f func()) (err error) {
@@ -425,9 +433,19 @@ func Bubble(t *testing.T, f func()) (err error) {
 		defer func() {
 			if r := recover(); r != nil {
 				err = fmt.Errorf("bubble: %v", r)
+				if os.Getenv("VERIF_DEBUG") != "" {
+					buf := make([]byte, 1<<20)
+					n := runtime.Stack(buf, true)
+					fmt.Printf("DEBUG bubble failure: %v\n%s\n", r, buf[:n])
+				}
 			}
 		}()
-		synctest.Test(t, func(*testing.T) { f() })
+		synctest.Test(t, func(*testing.T) {
+			f()
+			// virtual time stops when the root goroutine exits: give sleepers (rate limiter waits,
+			// retry back-offs) the time to wake up and finish
+			time.Sleep(BubbleLinger)
+		})
 	}()
 	<-done
 	return err
